@@ -172,7 +172,12 @@ Definition pd_y3 := FSub (FMul (FSub pd_s pd_x3) pd_m) pd_y4.
 Lemma PointDouble_is_program : forall x y z,
   let rho := fun i => match i with 0%nat => x | 1%nat => y | _ => z end in
   PointDouble_model (x, y, z) = (eval_fe rho pd_x3, eval_fe rho pd_y3, eval_fe rho pd_z3).
-Proof. intros. reflexivity. Qed.
+Proof.
+  intros x y z rho.
+  unfold PointDouble_model, sm2P256PointDouble, rho, pd_x3, pd_y3, pd_z3, pd_m, pd_s, pd_y4, pd_z4, pd_x2, pd_y2, pd_z2.
+  cbn [eval_fe]. unfold Mul_model, Square_model, AddFe_model, SubFe_model, FromBig_model, sm2P256Dup, curve_a.
+  change (ca gen_curve) with gen_A. reflexivity.
+Qed.
 
 (* the limb code of sm2P256PointDouble (the program above run on limb vectors) represents what the F_p-level model
    computes, for every loose Jacobian triple *)
